@@ -1,11 +1,14 @@
 #!/bin/sh
-# tools/mutest.sh <patch.diff> <ID> [<ID>...] : apply a seeded change to /repo, run the quick checks, undo it.
+# tools/mutest.sh <patch.diff> <ID> [<ID>...] : apply a seeded change to the repository under test, run the quick checks, undo it.
+# The repository is $VERIF_REPO (default /repo); the checks are those of the directory this script lives in.
 P=$1; shift
-cd /repo || exit 2
-git diff --quiet || { echo "/repo has uncommitted changes"; exit 2; }
+R=${VERIF_REPO:-/repo}
+V=$(cd "$(dirname "$0")/.." && pwd)
+cd "$R" || exit 2
+git diff --quiet || { echo "$R has uncommitted changes"; exit 2; }
 git apply "$P" || { echo "patch does not apply"; exit 2; }
-trap 'cd /repo && git checkout -- . && git clean -fdq' EXIT INT TERM
-cd /verif
+trap 'cd "$R" && git checkout -- . && git clean -fdq' EXIT INT TERM
+cd "$V"
 for id in "$@"; do
   ./check "$id" ${TIER:-quick} 2>&1 | grep -E "^VIOLATION|^KNOWN|^#|violation\(s\)" | cut -c1-400
 done
